@@ -62,6 +62,34 @@ impl Check for UnrealisedPnl {
     fn normalise(mut case: PnlCase) -> PnlCase {
         // full account snapshots are not part of this check's input domain
         case.events.retain(|e| !matches!(e, EvSpec::AccountSnapshot { .. }));
+        // magnitudes as generated (prices on a 0.25 grid up to 500, quantities up to 6, fees up to
+        // 1 %): the oracle compares exactly, which Decimal's 28 significant digits only carry for
+        // such values
+        case.n_instruments = 1 + case.n_instruments % 3;
+        for e in &mut case.events {
+            match e {
+                EvSpec::Fill { price_q, qty, fee_bp, dt, .. } => {
+                    *price_q = 1 + *price_q % 1999;
+                    *qty = 1 + *qty % 59;
+                    *fee_bp = (*fee_bp & 0x8000) | ((*fee_bp & 0x7fff) % 100);
+                    *dt = dt.rem_euclid(2000);
+                }
+                EvSpec::MarketTrade { price_q, dt, .. } => {
+                    *price_q %= 2000;
+                    *dt %= 3000;
+                }
+                EvSpec::MarketL1 { bid_q, ask_q, dt, .. } => {
+                    for side in [bid_q, ask_q] {
+                        if let Some((p, a)) = side {
+                            *p = 1 + *p % 1999;
+                            *a = 1 + *a % 49;
+                        }
+                    }
+                    *dt %= 3000;
+                }
+                _ => {}
+            }
+        }
         case
     }
 
